@@ -59,3 +59,11 @@ for _n, _f, _k in _LOOPS:
     KERNELS.append(K("src_loop_" + _n, _f, r"while \(((?:m_)?function\.[fg]calls\(\)[^{;]*?)\)\s*\{",
                      [(r"(?:m_)?function\.fcalls\(\)", "fcalls"), (r"(?:m_)?function\.gcalls\(\)", "gcalls")],
                      [("fcalls", "Z"), ("gcalls", "Z"), ("max_evals", "Z")], "c02", _P, pick=_k))
+
+# ---- extension (C02_LsLoop): the final `return` of the four line-search solver bodies -----------------------------------
+# own group "c02ls" (Src_c02ls.v; C01 does not depend on it). 1 = the (c)state object, 0 = pstate.
+_RET = r"::do_minimize\(.*?\n    return ([^;]*);\s*\n\}"
+_RATOMS = [(r"cstate\.valid\(\)", "valid_c"), (r"\bcstate\b", "1"), (r"\bpstate\b", "0"), (r"\bstate\b", "1")]
+KERNELS.append(K("src_ret_gd", "src/solver/gd.cpp", _RET, _RATOMS, [], "c02ls", ["C02"]))
+for _n in ("cgd", "lbfgs", "quasi"):
+    KERNELS.append(K("src_ret_" + _n, "src/solver/%s.cpp" % _n, _RET, _RATOMS, [("valid_c", "bool")], "c02ls", ["C02"]))
